@@ -5,7 +5,7 @@ cells, written in even phases (PUBLISH, own cell only, fresh immutable chains) a
 odd phases (TAKE). The model therefore runs thread after thread, phase after phase."""
 M = 1000000007
 OPS = {"NEW": 0, "LINK": 1, "UNLINK": 2, "DROP": 3, "CHURN": 4, "SUM": 5, "GCFULL": 6, "GCMINOR": 7, "YIELD": 8, "PUBLISH": 9,
-       "TAKE": 10, "LINKF": 11, "LOCKED_ALLOC": 12, "TEXT": 13, "SUMF": 14, "FILEIO": 15}
+       "TAKE": 10, "LINKF": 11, "LOCKED_ALLOC": 12, "TEXT": 13, "SUMF": 14, "FILEIO": 15, "SNAP": 16}
 
 
 class Node:
@@ -108,7 +108,7 @@ def expected(script):
                         l.new_node(y)
                 elif op == 5:
                     l.hash = (l.hash * 7 + l.checksum(l.slots[x % ns])) % M
-                elif op in (6, 7, 8):
+                elif op in (6, 7, 8, 16):
                     pass
                 elif op == 9:
                     assert p % 2 == 0, "PUBLISH only in even phases"
@@ -187,5 +187,21 @@ def generate(rng):
                         ops.append((11, rng.randrange(nslots), rng.randrange(4), 0))
                         if rng.random() < 0.5:
                             ops.append((14, rng.randrange(4), 0, 0))
+            code[tid][p] = ops
+    return flatten(t, phases, nslots, code)
+
+
+
+def add_snapshots(script, rng):
+    """Insert heap-snapshot requests (swiper builds only): after forced collections (the
+    concurrent sweeper may still be running) and at random places, on any thread."""
+    t, phases, nslots, code = parse(script)
+    for tid in range(t):
+        for p in range(phases):
+            ops = []
+            for op in code[tid][p]:
+                ops.append(op)
+                if (op[0] in (6, 7) and rng.random() < 0.5) or rng.random() < 0.04:
+                    ops.append((16, 0, 0, 0))
             code[tid][p] = ops
     return flatten(t, phases, nslots, code)
